@@ -34,7 +34,7 @@ def setup(ctx):
 def programs(draw):
     c = draw(c09.programs())
     # keep programs small: fault runs are threefold
-    c["threads"] = [t[:60] + ([["flush"]] if t[-1] != ["flush"] or len(t) > 60 else []) for t in c["threads"][:2]]
+    c["threads"] = [t[:500] + ([["flush"]] if len(t) > 500 else []) for t in c["threads"][:2]]
     for t in c["threads"]:
         if not any(o[0] == "ev" and o[1] == "OHe" for o in t):
             t.insert(len(t) - 1, ["ev", "OHe", 12])
